@@ -1,6 +1,7 @@
 package consh
 
 import (
+	"sort"
 	"strings"
 
 	"github.com/spikeekips/mitum/base"
@@ -158,7 +159,16 @@ func (o *c05Oracle) harnessClean() {
 		addrs[i] = n.Address()
 	}
 
-	for key, p := range before {
+	bkeys := make([]string, 0, len(before))
+	for key := range before {
+		bkeys = append(bkeys, key)
+	}
+
+	sort.Strings(bkeys) // the queries below yield and log: their order must not be the map's
+
+	for _, key := range bkeys {
+		p := before[key]
+
 		if after[key] || beforeSC[key] {
 			continue
 		}
